@@ -120,9 +120,7 @@ func (hb *HaltBlocks) get(height uint64) *Model {
 	haltBlock.height = height
 	haltBlock.markDirty = hb.markDirty
 
-	hb.setToMap(height, haltBlock)
-
-	return haltBlock
+	return hb.setToMapIfAbsent(height, haltBlock)
 }
 
 func (hb *HaltBlocks) markDirty(height uint64) {
@@ -213,6 +211,20 @@ func (hb *HaltBlocks) setToMap(height uint64, model *Model) {
 	defer hb.lock.Unlock()
 
 	hb.list[height] = model
+}
+
+// setToMapIfAbsent caches a record that was just loaded from the tree unless another goroutine
+// (an API query running next to block execution) has loaded and cached the same record in the
+// meantime; it returns the cached object, so that every caller works on one and the same object.
+func (hb *HaltBlocks) setToMapIfAbsent(height uint64, model *Model) *Model {
+	hb.lock.Lock()
+	defer hb.lock.Unlock()
+
+	if existing := hb.list[height]; existing != nil {
+		return existing
+	}
+	hb.list[height] = model
+	return model
 }
 
 func getPath(height uint64) []byte {
